@@ -1064,6 +1064,27 @@ def safety_check(pid, mode, tier):
         "correspondence_cases_with_uniform_requests": sum(1 for c in edge_cases if any(r[0] == "uniform" for r in c.log)),
         "uniform_requests_ending_at_the_largest_double": sum(1 for c in edge_cases for r in c.log if r[0] == "uniform" and isinstance(r[1], int) and isinstance(r[2], int) and fk(sys.float_info.max) in (abs(r[1]), abs(r[2]))),
     }
+    # ---- regex_p (exrex is third-party and not modelled): judged on the real code only -- every generated string matches, for
+    # plain, anchored, alternation / class / repetition patterns and for case-insensitive ones with letters whose full upper-casing
+    # is not their case-folded form
+    if mode == "T":
+        import re as _re
+
+        from predicate.regex_predicate import RegexPredicate as _Rx
+
+        rx = [P.regex_p("^foo"), P.regex_p("a+b?"), P.regex_p("[a-c]{2}x"), P.regex_p("(foo|ba[rz])\\d"), P.regex_p("(?i)stra\u00dfe"), _Rx("stra\u00dfe", _re.I), _Rx("\ufb01x", _re.I),
+              _Rx("caf\u00e9", _re.I | _re.A), _Rx("fo+", _re.I), _Rx("x[\u00e0-\u00e5]y", _re.I), P.regex_p("\\w\\s\\d")]
+        rx_judged = 0
+        for p_ in rx:
+            items, st, _, _ = pull_impl("T", p_, 40, EVENTS, seed=chk.seed * 1000 + 77)
+            if st.startswith("error"):
+                chk.add_failure({"mode": "T", "predicate": repr(p_), "flags": int(getattr(p_, "flags", 0))}, {"what": f"generate_true(regex_p) failed with {st}"}, None)
+            for i, v in enumerate(items):
+                rx_judged += 1
+                if call(p_, v) is not True:
+                    chk.add_failure({"mode": "T", "predicate": repr(p_), "flags": int(getattr(p_, "flags", 0)), "position": i}, {"what": "generate_true(regex_p(...)) yielded a string the pattern does not match", "value": ascii(v)}, None)
+                    break
+        chk.extra["regex_values_judged"] = rx_judged
     # ---- history: the values a stream yields belong to the caller.  Draw from both generators of a spec, change every
     # yielded container in place (empty ones get an item, non-empty ones are emptied; nested ones too), then open a NEW
     # stream: its values must still satisfy / violate the predicate (a sample object shared between streams shows here)
